@@ -41,7 +41,7 @@ def main():
             if base is None or after is None:
                 print(n, "engine error", nb, na); results[n] = ["engine error"]; continue
             new = sorted(after - base)
-            results[n] = new
+            results[n] = {"function": meta["function"], "false_alarms": new, "runner": "lib/harmlessfn.py (obligations of the edited function before vs. after)"}
             print(n, "obligations %s -> %s, false alarms: %d" % (nb, na, len(new)), flush=True)
             for x in new:
                 print("   ", x[:200])
